@@ -709,7 +709,15 @@ class StmtMixin:
                     self.event(s, fr, "slicestore", tg, (base, vals[1:], v, path_text(tg.value)))
                     self.note_mutation(s, fr, tg, base)
                     if isinstance(base, Ref) and base.kind in ("list", "bytearray"):
-                        s.heap[base.ident].opaque = True
+                        cell = s.heap[base.ident]
+                        it2 = iter(vals[1:])
+                        lo = const_of(norm(next(it2))) if tg.slice.lower is not None else 0
+                        hi = const_of(norm(next(it2))) if tg.slice.upper is not None else (len(cell.items) if not cell.opaque else None)
+                        rhs = self.seq_items(norm(v), s)
+                        if not cell.opaque and lo is not None and hi is not None and rhs is not None and tg.slice.step is None:
+                            cell.items[lo:hi] = list(rhs)
+                        else:
+                            cell.opaque = True
                     out.append((s, None))
                 return out
             for s, vals in self.ev_list([tg.value, tg.slice], st, fr):
